@@ -623,11 +623,17 @@ fn run_zone(c: &mut Ctx, z: &Zc) {
     // the year-by-year hypotheses on the rule (`RuleYearly`, `InsideYear`), evaluated here on one
     // Gregorian cycle with the harness's own calendar and by the model (`ruleYearlyB`, `insideYearB`;
     // `Props.C05.ruleYearly_of_B`: the 400-year check decides the statement for every year)
+    // `spec_everywhere`: the specification's step function `offAt` is what the code's lookup by instant
+    // must return at EVERY instant (`offAt_ok`: any table; alternate-time rules need `InsideYear`, which
+    // the 400-year check decides) — the condition under which the harness's brute-force wall set, which
+    // is built from the code's `offset_at`, can be compared with the model's `Spec.Zone.wallSet`
+    let mut spec_everywhere = oracles;
     if let Rule::Alt(a) = &pz.rule {
         let yearly = (2000..2400).all(|y| rule_yearly_at(a, y));
         let inside = (2000..2400).all(|y| inside_year_ut(a, y));
         c.op(&format!("tzl.yearly {}", z.dump), &format!("{}{}", b01(yearly), b01(inside)));
         c.count(&format!("zone.rule.alt.yearly={}.inside={}", b01(yearly), b01(inside)));
+        spec_everywhere &= inside;
     }
     // ---- lookup by instant
     for chunk in at.chunks(400) {
@@ -695,6 +701,7 @@ fn run_zone(c: &mut Ctx, z: &Zc) {
             .collect();
         let line = format!("tzl.loc {} {}", z.dump, chunk.iter().map(|t| t.to_string()).collect::<Vec<_>>().join(","));
         c.op(&line, &res.iter().map(show_loc).collect::<Vec<_>>().join(","));
+        let mut walls: Vec<(i64, String)> = vec![];
         for (&l, r) in chunk.iter().zip(&res) {
             let kind = match r {
                 Ok(MappedLocalTime::None) => "none",
@@ -750,6 +757,10 @@ fn run_zone(c: &mut Ctx, z: &Zc) {
             }
             w.sort();
             w.dedup();
+            if spec_everywhere && l.abs() < (1i64 << 54) {
+                let txt = if w.is_empty() { "-".to_string() } else { w.iter().map(|t| t.to_string()).collect::<Vec<_>>().join("/") };
+                walls.push((l, txt));
+            }
             let got: Option<Vec<i64>> = match r {
                 Ok(MappedLocalTime::None) => Some(vec![]),
                 Ok(MappedLocalTime::Single(o)) => Some(vec![l - *o as i64]),
@@ -764,6 +775,16 @@ fn run_zone(c: &mut Ctx, z: &Zc) {
                     &format!("{} [{}] local={} got={} wall_set={:?} dump={}", z.class, z.label, l, show_loc(r), w, short(&z.dump)),
                 );
             }
+        }
+        // the harness's brute-force wall sets (from the code's lookup by instant) against the model's
+        // `Spec.Zone.wallSet` (from the specification's step function): ties O3's yardstick to the
+        // `wallSet` that `Props.C05.wallSet_mem` is about
+        if !walls.is_empty() {
+            c.count("wall.sets-compared-with-Spec.wallSet");
+            c.op(
+                &format!("tzl.wall {} {}", z.dump, walls.iter().map(|(l, _)| l.to_string()).collect::<Vec<_>>().join(",")),
+                &walls.iter().map(|(_, w)| w.as_str()).collect::<Vec<_>>().join(","),
+            );
         }
     }
 }
@@ -1307,6 +1328,15 @@ pub fn run(c: &mut Ctx) {
         // `Props.C05.nsZone` / `nsZone2`: the kernel-checked counterexamples outside `WellSeparated`
         ("nsZone", &[(0, false, "AAA"), (3600, true, "BBB")], &[(1_000_000, 1), (1_000_600, 0)], ""),
         ("nsZone2", &[(3600, true, "BBB"), (0, false, "AAA"), (7200, true, "CCC")], &[(1_000_000, 1), (1_000_600, 2)], ""),
+        // the trivial zone shapes: one type and nothing else; no transitions + fixed rule; no transitions + rule
+        ("one type", &[(3600, false, "AAA")], &[], ""),
+        ("one type, far east", &[(93600, false, "AAA")], &[], ""),
+        ("fixed rule only", &[(7200, false, "FIX")], &[], "FIX-2"),
+        ("rule only", &[(-18000, false, "EST")], &[], "EST5EDT,M3.2.0,M11.1.0"),
+        // `Props.C05.lonZone`: an offset-preserving transition (London 1968-10-27), no excepted second there
+        ("lonZone", &[(0, false, "GMT"), (3600, true, "BST"), (3600, false, "BST")], &[(-59_004_000, 1), (-37_242_000, 2), (57_722_400, 0)], ""),
+        // `Props.C05.exZoneUS`
+        ("exZoneUS", &[(-18000, false, "EST"), (-14400, true, "EDT")], &[(-1_633_280_400, 1), (-1_615_140_000, 0), (1_710_054_000, 1)], "EST5EDT,M3.2.0,M11.1.0"),
     ];
     for (name, types, trans, footer) in directed {
         let bytes = write_tzif(b'2', types, trans, footer);
